@@ -29,7 +29,13 @@ ASSUMPTIONS = ["p is an odd prime and the discriminant is non-zero in the search
                "search domain: stored coordinates reduced to [0,p); operands are points of the curve in any scaling, or "
                "identity-valued PointJacobi objects (Z = 0 with any X, Y; Y = 0 with X/Z^2 not a root of x^3+ax+b), or INFINITY, "
                "or legacy Points; kernel-level calls additionally with -Y2 and x+p as the library's own loops produce them; what "
-               "the code does with unreduced constructor arguments at object level is covered by the correspondence only",
+               "the code does with unreduced constructor arguments at object level is outside the Lean object-level theorems (PJRep/PJRep0 "
+               "require all three coordinates in [0,p); the kernel-level theorems allow |c| < p): it is covered by the correspondence "
+               "(pj_add, pj_eq, pt_eq with x+p, y-p, -y, Z+p, equal and unequal Z) and, for `==`, by the oracle search "
+               "(classes *.eq.unreduced.*); x(), y(), to_affine() of an unreduced object with Z = 1 return the stored integers "
+               "and are not claimed canonical",
+               "operands may lie on equal-but-distinct CurveFp objects (second construction with/without cofactor, deepcopy, "
+               "pickle): `CurveFp.__eq__` compares p, a, b only",
                "open known finding K1: on curves with a point of order 2 a case where an operand, intermediate or result has "
                "y = 0 is reported as KNOWN-FINDING, not as a violation"]
 
@@ -358,11 +364,49 @@ def corr_named(ctx, S):
         S.op("aff_eq", c, [A(G[0], G[1]), A(OG[0], OG[1], curve=oc)], nm + ".othercurve")
 
 
+def unreduced_forms(t, p, rng):
+    """the same Jacobian triple written with non-canonical integers, Z unchanged (so `z1 == z2` still holds between them)"""
+    x, y, z = t
+    return [(x, y, z), (x + p, y, z), (x, y - p, z), (x - p, y + p, z), (x + 2 * p, y - 3 * p, z), (x, -((-y) % p), z)]
+
+
+def corr_twins_and_unreduced(ctx, S, p, a, b):
+    """(1) operands lying on EQUAL BUT DISTINCT CurveFp objects (the model compares curves by value, as `CurveFp.__eq__`
+    does); (2) `==` between non-canonical writings of points with EQUAL Z on both sides (and unequal Z)"""
+    rng = ctx.rng
+    c = K.curve_of(p, a, b)
+    pts = K.points(p, a, b)
+    zs = ZS(p)
+    for P in pts:
+        for Q in rng.sample(pts, min(len(pts), 4)) + [P, K.o_neg(P, p)]:
+            mode = rng.choice(K.TWINS)
+            c2 = K.twin_curve(c, mode)
+            rp, rq = K.rescale(P, rng.choice(zs), p), K.rescale(Q, rng.choice(zs), p)
+            tag = "toy.twin.%s." % mode
+            S.op("pj_add", c, [J(*rp), J(*rq, curve=c2)], tag + "add")
+            S.op("pj_add", c, [J(*rp), A(*Q, curve=c2)], tag + "add.affine")
+            S.op("pt_add", c, [A(*P), J(*rq, curve=c2)], tag + "radd")
+            S.op("aff_add", c, [A(*P), A(*Q, curve=c2)], tag + "legacy.add")
+            S.op("pj_eq", c, [J(*rp), J(*rq, curve=c2)], tag + "eq")
+            S.op("pt_eq", c, [A(*P), J(*rq, curve=c2)], tag + "eq.affine")
+            S.op("aff_eq", c, [A(*P), A(*Q, curve=c2)], tag + "legacy.eq")
+        for z in zs:
+            forms = unreduced_forms(K.rescale(P, z, p), p, rng)
+            Q = rng.choice(pts)
+            qforms = unreduced_forms(K.rescale(Q, z, p), p, rng)
+            for f1 in forms:
+                for f2 in forms[:3] + [rng.choice(qforms)]:
+                    S.op("pj_eq", c, [J(*f1), J(*f2)], "toy.eq.unreduced.equalZ")
+                S.op("pt_eq", c, [J(*f1), A(*P)] if z == 1 else [A(*P), J(*f1)], "toy.eq.unreduced.affine")
+                S.op("pj_eq", c, [J(*f1), J(f1[0], f1[1], f1[2] + p)], "toy.eq.unreduced.Zplusp")
+
+
 def correspond(ctx):
     S = K.Stream(ctx, "curve_ops")
     for (p, a, b) in K.toy_selection(ctx):
         ctx.hist("correspondence.toy_curves", "p=%d.%s" % (p, "even" if K.has_two_torsion(p, a, b) else "odd"))
         corr_toy_curve(ctx, S, p, a, b)
+        corr_twins_and_unreduced(ctx, S, p, a, b)
     S.flush()
     S.name = "curve_malformed"
     S.flush()
@@ -445,7 +489,9 @@ def check_case(case):
         else:
             specs = [K.parse_tok(t) for t in args]
             vals = [K.o_val(s, p, case["curve"][2], case["curve"][1]) for s in specs]
-            mk = lambda i: specs[i].make(c)  # noqa  (a FRESH object every time: scale() mutates)
+            # "twin": every operand but the first lies on an equal-but-distinct CurveFp object
+            c2 = K.twin_curve(c, case["twin"]) if case.get("twin") else c
+            mk = lambda i: specs[i].make(c if i == 0 else c2)  # noqa  (a FRESH object every time: scale() mutates)
             pts = list(vals)
             if kind == "add":
                 want = K.o_add(vals[0], vals[1], p, a)
@@ -662,6 +708,28 @@ def search_toy_curve(ctx, S, p, a, b):
             trip = rng.sample(reps, 2) + [rng.choice(other)]
             rng.shuffle(trip)
             S.case(mkcase(cur, "eq3", trip), pre + "eq3.mixed")
+    # operands on equal-but-distinct CurveFp objects (second construction, cofactor or not, deepcopy, pickle)
+    for P in pts:
+        for Q in rng.sample(pts, min(len(pts), 3)) + [P, K.o_neg(P, p)]:
+            mode = rng.choice(K.TWINS)
+            s1, s2 = tk(J(*K.rescale(P, rng.choice(zs), p))), tk(J(*K.rescale(Q, rng.choice(zs), p)))
+            for chk, args in (("add", [s1, s2]), ("add", [s1, tk(A(*Q))]), ("add", [tk(A(*P)), s2]), ("add", [tk(A(*P)), tk(A(*Q))]),
+                              ("eq", [s1, s2]), ("eq", [tk(A(*P)), s2]), ("eq", [tk(A(*P)), tk(A(*Q))]), ("chain", [s1, s2])):
+                case = mkcase(cur, chk, args)
+                case["twin"] = mode
+                S.case(case, pre + "twin.%s.%s" % (chk, mode))
+    # `==` between non-canonical writings (x+p, y-p, -y for p-y, ...) with EQUAL Z on both sides: only `==` is claimed
+    # for such user-constructed objects (their x(), y() with Z = 1 are returned as stored)
+    for P in pts:
+        for z in zs:
+            forms = unreduced_forms(K.rescale(P, z, p), p, rng)
+            Q = rng.choice(pts)
+            qf = rng.choice(unreduced_forms(K.rescale(Q, z, p), p, rng))
+            for f1 in forms[1:]:
+                S.case(mkcase(cur, "eq", [tk(J(*f1)), tk(J(*forms[0]))]), pre + "eq.unreduced.equalZ")
+                S.case(mkcase(cur, "eq", [tk(J(*f1)), tk(J(*rng.choice(forms)))]), pre + "eq.unreduced.equalZ")
+                S.case(mkcase(cur, "eq", [tk(J(*f1)), tk(J(*qf))]), pre + "eq.unreduced.equalZ.other")
+                S.case(mkcase(cur, "eq", [tk(J(*f1)), tk(A(*P))]), pre + "eq.unreduced.affine")
     # identity-valued PointJacobi objects (F13): every way the identity can be held must behave as the identity
     nonroot = [x for x in range(p) if (x ** 3 + a * x + b) % p]
     ids = [J(1, 1, 0), J(0, 0, 0), J(rng.randrange(p), rng.randrange(1, p), 0)]
